@@ -542,12 +542,37 @@ def canon(node, subst):
     return ALIASES.get(t, t)
 
 
-def const_int(node, consts):
-    if isinstance(node, ast.Constant) and isinstance(node.value, int):
+def const_int(node, consts, flags=None):
+    """compile-time integer: literals, module constants / known locals, conditional expressions on a known boolean flag
+    (`8 if extended else 2`), + - * of those"""
+    flags = flags or {}
+    if isinstance(node, ast.Constant) and isinstance(node.value, int) and not isinstance(node.value, bool):
         return node.value
     if isinstance(node, ast.Name) and node.id in consts:
         return consts[node.id]
+    if isinstance(node, ast.IfExp):
+        t = node.test
+        neg = False
+        if isinstance(t, ast.UnaryOp) and isinstance(t.op, ast.Not):
+            t, neg = t.operand, True
+        if isinstance(t, ast.Name) and t.id in flags:
+            v = flags[t.id] != neg
+            return const_int(node.body if v else node.orelse, consts, flags)
+    if isinstance(node, ast.BinOp) and isinstance(node.op, (ast.Add, ast.Sub, ast.Mult)):
+        a, b = const_int(node.left, consts, flags), const_int(node.right, consts, flags)
+        return a + b if isinstance(node.op, ast.Add) else a - b if isinstance(node.op, ast.Sub) else a * b
     raise Untranslatable(f"width {ast.unparse(node)}")
+
+
+def local_consts(stmt, consts, flags):
+    """`name = <compile-time integer>`: remember it (a temporary for a width)"""
+    if isinstance(stmt, ast.Assign) and len(stmt.targets) == 1 and isinstance(stmt.targets[0], ast.Name):
+        try:
+            consts[stmt.targets[0].id] = const_int(stmt.value, consts, flags)
+            return True
+        except Untranslatable:
+            return False
+    return False
 
 
 def is_little(node, locals_):
@@ -826,7 +851,11 @@ def gen_header_layout(repo):
             if len(loop) != 1:
                 raise Untranslatable("VLRList.write_to loop")
             fields = []
+            vc = dict(vconsts)
+            flags = {"as_extended": ext}
             for s in loop[0].body:
+                if local_consts(s, vc, flags):
+                    continue
                 calls = []
                 if isinstance(s, ast.Expr) and isinstance(s.value, ast.Call):
                     calls = [(s.value, None)]
@@ -850,13 +879,13 @@ def gen_header_layout(repo):
                             if not byteorder_ok(a, 1, {}) or not unsigned_kw(a):
                                 raise Untranslatable("VLR to_bytes order")
                             nm = ast.unparse(a.func.value).replace("vlr.", "").replace("len(record_data)", "record_length")
-                            fields.append(("KUInt", const_int(a.args[0], vconsts), nm))
+                            fields.append(("KUInt", const_int(a.args[0], vc, flags), nm))
                         elif ast.unparse(a) == "record_data":
                             fields.append(("KVar", 0, "record_data"))
                         else:
                             raise Untranslatable(f"VLR stream.write({ast.unparse(a)})")
                     elif f in ("write_string", "write_as_c_string"):
-                        fields.append(("KStr" if f == "write_string" else "KCStr", const_int(c.args[2], vconsts),
+                        fields.append(("KStr" if f == "write_string" else "KCStr", const_int(c.args[2], vc, flags),
                                        ast.unparse(c.args[1]).replace("vlr.", "")))
             return f"Definition vlr_write_layout_{'ext' if ext else 'std'} : layout := " + coq_layout(fields) + ".\n"
         return t
@@ -870,8 +899,12 @@ def gen_header_layout(repo):
             if len(loop) != 1:
                 raise Untranslatable("VLRList.read_from loop")
             fields = []
+            vc = dict(vconsts)
+            flags = {"extended": ext}
 
             def one(s):
+                if local_consts(s, vc, flags):
+                    return
                 rd = [n for n in ast.walk(s) if isinstance(n, ast.Call) and ast.unparse(n.func) in ("data_stream.read", "read_string")]
                 if not rd:
                     return
@@ -881,20 +914,20 @@ def gen_header_layout(repo):
                 tgt = ast.unparse(s.targets[0]) if isinstance(s, ast.Assign) else "reserved"
                 tgt = {"record_data_len": "record_length", "record_data_bytes": "record_data"}.get(tgt, tgt)
                 if ast.unparse(c.func) == "read_string":
-                    fields.append(("KStr", const_int(c.args[1], vconsts), tgt))
+                    fields.append(("KStr", const_int(c.args[1], vc, flags), tgt))
                     return
                 src = ast.unparse(s)
                 if "int.from_bytes" in src:
                     fb = [n for n in ast.walk(s) if isinstance(n, ast.Call) and ast.unparse(n.func) == "int.from_bytes"][0]
                     if not byteorder_ok(fb, 1, {}) or not unsigned_kw(fb):
                         raise Untranslatable("VLR from_bytes order")
-                    fields.append(("KUInt", const_int(c.args[0], vconsts), tgt))
+                    fields.append(("KUInt", const_int(c.args[0], vc, flags), tgt))
                 elif ".split(b'\\x00')[0]" in src or '.split(b"\\0")[0]' in src:
-                    fields.append(("KStr", const_int(c.args[0], vconsts), tgt))
+                    fields.append(("KStr", const_int(c.args[0], vc, flags), tgt))
                 elif tgt == "record_data":
                     fields.append(("KVar", 0, tgt))
                 elif tgt == "reserved":
-                    fields.append(("KConst", const_int(c.args[0], vconsts), tgt))
+                    fields.append(("KConst", const_int(c.args[0], vc, flags), tgt))
                 else:
                     raise Untranslatable(f"VLR read {src[:60]}")
             for s in loop[0].body:
@@ -1159,12 +1192,37 @@ def gen_cursor(repo):
     o.add("gen_seek", sk)
 
     def it():
+        """__next__ is `x = self.reader.read_points(self.points_per_iteration)` followed by: raise StopIteration when x is
+        empty, return x otherwise (either branch order, optional docstring)"""
         icls = find_class(mod, "PointChunkIterator")
         f = find_func(icls, "__next__")
-        src = ast.unparse(f)
-        ok = ("self.reader.read_points(self.points_per_iteration)" in src and "if not points:" in src
-              and "raise StopIteration" in src and src.strip().endswith("return points"))
-        if not ok or len(f.body) != 3:
+        body = [st for st in f.body if not (isinstance(st, ast.Expr) and isinstance(st.value, ast.Constant) and isinstance(st.value.value, str))]
+        if not body or not isinstance(body[0], ast.Assign) or len(body[0].targets) != 1 or not isinstance(body[0].targets[0], ast.Name):
+            raise Untranslatable("PointChunkIterator.__next__ shape")
+        x = body[0].targets[0].id
+        if ast.unparse(body[0].value) != "self.reader.read_points(self.points_per_iteration)":
+            raise Untranslatable("PointChunkIterator.__next__ does not read points_per_iteration points")
+
+        def is_ret(st):
+            return isinstance(st, ast.Return) and isinstance(st.value, ast.Name) and st.value.id == x
+
+        def is_stop(st):
+            return isinstance(st, ast.Raise) and st.exc is not None and ast.unparse(st.exc).startswith("StopIteration")
+        rest = body[1:]
+        ok = False
+        if len(rest) == 2 and isinstance(rest[0], ast.If) and not rest[0].orelse and len(rest[0].body) == 1:
+            t = ast.unparse(rest[0].test)
+            if t in (f"not {x}", f"len({x}) == 0") and is_stop(rest[0].body[0]) and is_ret(rest[1]):
+                ok = True
+            if t in (x, f"len({x}) > 0", f"len({x})") and is_ret(rest[0].body[0]) and is_stop(rest[1]):
+                ok = True
+        if len(rest) == 1 and isinstance(rest[0], ast.If) and len(rest[0].body) == 1 and len(rest[0].orelse) == 1:
+            t = ast.unparse(rest[0].test)
+            if t == f"not {x}" and is_stop(rest[0].body[0]) and is_ret(rest[0].orelse[0]):
+                ok = True
+            if t == x and is_ret(rest[0].body[0]) and is_stop(rest[0].orelse[0]):
+                ok = True
+        if not ok:
             raise Untranslatable("PointChunkIterator.__next__ shape")
         return "Definition gen_iter_stops_on_empty : bool := true.\n"
     o.add("gen_iter", it)
